@@ -57,6 +57,13 @@ SPAN_SHORT = ['error_span', 'warn_span', 'info_span', 'debug_span', 'trace_span'
 # ---------------------------------------------------------------------------- value kinds
 
 
+
+def dbg2(fm, raw):
+    """expectation for a value recorded with a sigil: the text under the plain spec and under a
+    width/alignment spec (the sigil wrappers must pass the formatter's flags through)"""
+    padded = '{:>14}' if fm == '{}' else '{:>14?}'
+    return 'Rec::Debug2 { plain: format!("%s", %s), padded: format!("%s", %s) }' % (fm, raw, padded, raw)
+
 class VK:
     """value usable as `name = <value>` (has a `Value` impl in tracing-core/src/field.rs)"""
 
@@ -337,7 +344,7 @@ class Emit:
         if vs in ('disp', 'dbg', 'dispfn', 'dbgfn'):
             txt, en, alt = name_for(f.namesyn)
             fm = '{}' if vs in ('disp', 'dispfn') else '{:?}'
-            rec = 'Rec::Debug(format!("%s", %s))' % (fm, raw)
+            rec = dbg2(fm, raw)
             if vs == 'disp':
                 m = '%s = %%%s' % (txt, tk(raw))
             elif vs == 'dbg':
@@ -354,7 +361,7 @@ class Emit:
                 return n, self.e(n, None, k.exp.format(v=v, i=i)), (n, None)
             fm = '{}' if vs == 'sh_disp' else '{:?}'
             sig = '%' if vs == 'sh_disp' else '?'
-            return sig + n, self.e(n, None, 'Rec::Debug(format!("%s", %s))' % (fm, raw)), (n, None)
+            return sig + n, self.e(n, None, dbg2(fm, raw)), (n, None)
         if vs in ('shd', 'shd2', 'shd_disp', 'shd_dbg'):
             w = 'w%d' % i
             tn = self.tickno() if ticked else 127
@@ -369,7 +376,7 @@ class Emit:
                 return path, self.e(path, None, k.exp.format(v=v, i=i)), (path, None)
             fm = '{}' if vs == 'shd_disp' else '{:?}'
             sig = '%' if vs == 'shd_disp' else '?'
-            return sig + path, self.e(path, None, 'Rec::Debug(format!("%s", %s))' % (fm, raw)), (path, None)
+            return sig + path, self.e(path, None, dbg2(fm, raw)), (path, None)
         raise ValueError(vs)
 
     # -- message -> (macro text, expectation entry)
